@@ -65,6 +65,9 @@ def generate(rng, seed, index, tier):
     kw["iteration_limit"] = int(rng.integers(4, TIERS[tier]["cap"] + 1))
     kw = gen.quiet_params(kw)
     if fam in ("qp", "nlp") and rng.random() < 0.15:
+        # the opt-in derivative check evaluates the callbacks at perturbed points: what it gets back is caller-owned too
+        kw["deriv_check"] = str(rng.choice(["CheckFirst", "CheckAll", "CheckSecond"]))
+    if fam in ("qp", "nlp") and rng.random() < 0.15:
         x0 = gen.integer_bounds(rng, spec, x0)
     if rng.random() < 0.25:
         spec["dup"] = True
@@ -111,6 +114,8 @@ def case(world):
     for fmt in ("coo", "csr", "csc"):
         ref = None
         for policy in ("fresh", "cached", "memo", "retain"):
+            if policy == "retain" and world["params"].get("deriv_check"):
+                continue  # the derivative check perturbs one work array in place and passes it on: arguments are not stable there
             sub = {"fmt": fmt, "policy": policy}
             if only is not None and only != sub and policy != "fresh":
                 continue
